@@ -299,6 +299,9 @@ GENERATORS = {'doc': g_doc, 'deep': g_deep, 'repeat': g_repeat, 'wellformed': g_
 # oracles
 # ---------------------------------------------------------------------------
 def cause_fits(exc, D):
+    # ignored (NUL) and invalid (DEL) characters are dropped by the tokenizer:
+    # '\\<DEL>begin{}' is an environment opener
+    D = D.replace('\x00', '').replace('\x7f', '')
     if exc == 'EOFError':
         return ('\\begin' in D) or ('$' in D) or ('\\[' in D) or ('\\(' in D)
     if exc == 'TypeError':
